@@ -169,6 +169,40 @@ class SRowSeries(SSeries):
         raise Unsupported(f'row Series binop {op}')
 
 
+def _series_apply(self, ctx, fn):
+    """Series.apply(f): element-wise application of a Python function (here: a lambda of the verified code)"""
+    interp = ctx.interp
+    a = self.at
+
+    def g(i):
+        r = interp.call(fn, [a(i)], {})
+        return SBool(lift(r), 'npbool') if isinstance(r, bool) else r
+    return SRowSeries(self.frame, g, 'bool')
+
+
+def _series_sum(self, ctx):
+    if self.dtype != 'bool':
+        raise Unsupported('sum of a non-boolean row Series')
+    fr, m = self.frame, self.at
+    M = fresh('summask', BoolArr)
+    ctx.assume(smt.Forall(0, fr.n, lambda i: M[i] == z3.And(fr.present(i), to_bool_term(m(i))), name='sm'))
+    ctx.note_cnt(M)
+    ctx.hint(fr.n)
+    ctx.ghost.setdefault('mask_sums', []).append((self, M))
+    # a positive count has a witness (skolemised contrapositive of the proved lemma prop.C02.nosig: no True below n => count 0)
+    w = fresh_int('sumw')
+    ctx.assume(z3.Implies(cnt(M, fr.n) > 0, z3.And(w >= 0, w < fr.n, M[w])))
+    ctx.hint(w)
+    ctx.used_lemmas.add('prop.C02.nosig')
+    return SInt(cnt(M, fr.n), 'npint')
+
+
+SRowSeries.m_apply = _series_apply
+SRowSeries.m_sum = _series_sum
+LIB_DOC['pandas.Series.apply(f)'] = 's.apply(f): the Series of f(element) for every element (f pure)'
+LIB_DOC['pandas.Series.sum() of booleans'] = 'number of True elements'
+
+
 class SRowsSel(Model):
     """data[mask]"""
     pytype = 'DataFrame'
